@@ -68,6 +68,7 @@ def run(program, res, tier):
     r2 = Relabel(res, {"*": "C02-S2"})
     c04._s1a(program, r2)
     c04._s1b(program, r2)
+    c04._s1d(program, r2)
     c04._s1c(program, r2)
     c04._s2(program, r2)
     c16._s3(program, Relabel(res, {"*": "C02-S2"}))
